@@ -39,30 +39,58 @@ func (core *JApiCore) compileCore() *jerr.JApiError {
 
 func (core *JApiCore) checkMacroForRecursion() *jerr.JApiError {
 	for macroName, macro := range core.macro {
-		if je := findPaste(macroName, macro); je != nil {
+		if je := core.findPaste(macroName, macro); je != nil {
 			return je
 		}
 	}
 	return nil
 }
 
-func findPaste(macroName string, d *directive.Directive) *jerr.JApiError {
+func (core *JApiCore) findPaste(macroName string, d *directive.Directive) *jerr.JApiError {
 	if d.Type() == directive.Paste {
-		switch d.NamedParameter("Name") {
-		case "":
+		name := d.NamedParameter("Name")
+		switch {
+		case name == "":
 			return d.KeywordError(fmt.Sprintf("%s (%s)", jerr.RequiredParameterNotSpecified, "Name"))
-
-		case macroName:
+		case name == macroName, core.macroPastes(name, macroName, map[string]struct{}{}):
 			return d.KeywordError("recursion is prohibited")
 		}
 	} else if d.Children != nil {
 		for _, c := range d.Children {
-			if je := findPaste(macroName, c); je != nil {
+			if je := core.findPaste(macroName, c); je != nil {
 				return je
 			}
 		}
 	}
 	return nil
+}
+
+// macroPastes reports whether the macro "from" pastes the macro "target",
+// directly or through any number of other macros.
+func (core *JApiCore) macroPastes(from, target string, visited map[string]struct{}) bool {
+	if _, ok := visited[from]; ok {
+		return false
+	}
+	visited[from] = struct{}{}
+	m, ok := core.macro[from]
+	if !ok {
+		return false
+	}
+	return core.directivesPaste(m.Children, target, visited)
+}
+
+func (core *JApiCore) directivesPaste(dd []*directive.Directive, target string, visited map[string]struct{}) bool {
+	for _, d := range dd {
+		if d.Type() == directive.Paste {
+			name := d.NamedParameter("Name")
+			if name == target || (name != "" && core.macroPastes(name, target, visited)) {
+				return true
+			}
+		} else if core.directivesPaste(d.Children, target, visited) {
+			return true
+		}
+	}
+	return false
 }
 
 func (core *JApiCore) collectUserTypes() {
